@@ -162,6 +162,11 @@ func checkC04(r *mon.Run) {
 		if twin != nil {
 			certs = append(certs, c04cert{"same-issuer-serial-other-key", twin})
 		}
+		if seed.Set != nil {
+			for _, fc := range seed.Set.TwinForeign {
+				certs = append(certs, c04cert{"same-issuer-serial-" + fc.PublicKeyAlgorithm.String() + "-key", fc})
+			}
+		}
 		// baseline: what the three verifiers say about the untouched seed
 		base := libP7Verify(seed.Blob, seed.Right)
 		r.Count("seeds", 1)
